@@ -69,3 +69,70 @@ def quiet(fn, *a, **k):
     with warnings.catch_warnings(), numpy.errstate(all="ignore"):
         warnings.simplefilter("ignore")
         return fn(*a, **k)
+
+
+# ---------------------------------------------------------------------------------------------------------------------------------------------
+# synthetic-but-physical data sets (generic on purpose: modes are NOT listed in ascending frequency and branches cross between volumes, weights are not integers,
+# static columns and lattice ratios vary with volume, the q list may start off Gamma)
+GPA = 14710.507848260711      # 1 Ry/bohr^3 in GPa
+
+
+def synthetic_texts(seed=0, nv=8, nq=3, na=2, system="orthorhombic", lattice=True, gamma_first=True):
+    """-> (input01 text, input02 text, description dict).  E(V) quadratic in Eulerian strain (B0 ~ 200 GPa), power-law modes with mode-dependent Grueneisen parameters"""
+    import io as _io
+    from cij.io.traditional import qha_input as qi
+    rnd = numpy.random.RandomState(seed)
+    V0 = 560.0
+    V = numpy.linspace(625.0, 495.0, nv)
+    f = ((V0 / V) ** (2.0 / 3.0) - 1.0) / 2.0
+    B = 200.0 / GPA
+    E = -50.0 + 4.5 * V0 * B * f ** 2 * (1.0 + 1.2 * f)
+    npm = 3 * na
+    w0 = rnd.uniform(120.0, 900.0, size=(nq, npm))
+    g = rnd.uniform(0.6, 2.4, size=(nq, npm))
+    coords = [(0.0, 0.0, 0.0)] + [tuple(numpy.round(rnd.uniform(0.05, 0.5, size=3), 4)) for _ in range(nq - 1)]
+    if not gamma_first:
+        coords[0] = (0.125, 0.125, 0.125)
+    if gamma_first:
+        w0[0, :3] = 0.0
+    weights = [float(numpy.round(rnd.uniform(0.5, 6.0), 3)) for _ in range(nq)]
+    vols = []
+    for i in range(nv):
+        qps = [qi.QPointData(coords[q], [float(w0[q, m] * (V[i] / V0) ** (-g[q, m])) for m in range(npm)]) for q in range(nq)]
+        vols.append(qi.VolumeData(0.0, float(V[i]), float(E[i]), qps))
+    data = qi.QHAInputData(nv, nq, npm, 1, na, [(coords[q], weights[q]) for q in range(nq)], vols)
+    import tempfile as _tf
+    d = _tf.mkdtemp(prefix="cijsyn_")
+    try:
+        qi.write_energy(os.path.join(d, "i1"), data)
+        t1 = open(os.path.join(d, "i1")).read()
+    finally:
+        shutil.rmtree(d, ignore_errors=True)
+    comps = {"orthorhombic": ["c11", "c22", "c33", "c12", "c13", "c23", "c44", "c55", "c66"], "cubic": ["c11", "c12", "c44"],
+             "trigonal7": ["c11", "c33", "c12", "c13", "c44", "c14", "c15"], "monoclinic": ["c11", "c22", "c33", "c12", "c13", "c23", "c44", "c55", "c66", "c15", "c25", "c35", "c46"]}[system]
+    base = {"c11": 460.0, "c22": 430.0, "c33": 380.0, "c12": 160.0, "c13": 110.0, "c23": 95.0, "c44": 115.0, "c55": 105.0, "c66": 150.0, "c14": -15.0, "c15": 25.0, "c25": 12.0, "c35": -9.0,
+            "c46": 7.0}
+    slope = {k: float(rnd.uniform(2.5, 5.5)) for k in base}
+    lines = ["V_0 N cellmass synthetic", "%.8f %d %.3f" % (V0, nv, 180.5 + seed), "V " + " ".join(comps)]
+    for i in range(nv):
+        lines.append("%.8f " % V[i] + " ".join("%.4f" % (base[k] * (1.0 + slope[k] * f[i])) for k in comps))
+    if lattice:
+        lines.append(" lattice_a lattice_b lattice_c ")
+        r = numpy.array([1.0, 1.12, 0.93])
+        for i in range(nv):
+            ratio = r * (1.0 + numpy.array([0.15, -0.1, -0.05]) * f[i])
+            a = (V[i] / numpy.prod(ratio)) ** (1.0 / 3.0) * ratio
+            lines.append(" ".join("%.6f" % x for x in a))
+    t2 = "\n".join(lines) + "\n"
+    return t1, t2, {"V": V.tolist(), "nq": nq, "na": na, "system": system, "lattice": lattice, "gamma_first": gamma_first, "weights": weights}
+
+
+def synthetic_case(seed=0, settings=None, **kw):
+    """a Case on a synthetic data set (settings of the akimotoite example re-targeted: small grids, lsq_poly)"""
+    system = kw.get("system", "orthorhombic")
+    t1, t2, desc = synthetic_texts(seed, **kw)
+    base = {"qha": {"settings": {"NT": 6, "DT": 300, "DT_SAMPLE": 300, "NTV": 21, "DELTA_P": 2.0, "DELTA_P_SAMPLE": 2.0, "T_MIN": 0, "P_MIN": 0, "order": 3, "volume_ratio": 1.2}},
+            "elast": {"settings": {"mode_gamma": {"interpolator": "lsq_poly", "order": 3}, "symmetry": {"system": system}}}}
+    c = Case("akimotoite", deep_update(base, settings), input01_text=t1, elast_text=t2)
+    c.description = desc
+    return c
